@@ -44,10 +44,18 @@ func c15ptrRoute(name string, v int) *ast.Route {
 			}}},
 		}}
 	}
-	return &ast.Route{Method: ast.Get, Path: "/items/:lim/:n", Body: []ast.Statement{
+	// arithmetic on a value that is only known at run time (q is an integer input), written with
+	// the identities an optimiser likes to simplify: 0 - q, q - 0, q * 1, 0 + q, 1 * q, q + 0
+	bin := func(l ast.Expr, op ast.BinOp, r ast.Expr) ast.Expr { return &ast.BinaryOpExpr{Left: l, Op: op, Right: r} }
+	return &ast.Route{Method: ast.Get, Path: "/items/:lim/:n/:q", Body: []ast.Statement{
 		&ast.AssignStatement{Target: "z", Value: lit(v)},
+		&ast.AssignStatement{Target: "neg", Value: bin(lit(0), ast.Sub, vr("q"))},
+		&ast.AssignStatement{Target: "keep", Value: bin(vr("q"), ast.Sub, lit(0))},
+		&ast.AssignStatement{Target: "same", Value: bin(bin(vr("q"), ast.Mul, lit(1)), ast.Add, bin(lit(0), ast.Add, vr("q")))},
+		&ast.AssignStatement{Target: "more", Value: bin(bin(lit(1), ast.Mul, vr("q")), ast.Add, bin(vr("q"), ast.Add, lit(0)))},
 		&ast.ReturnStatement{Value: &ast.ObjectExpr{Fields: []ast.ObjectField{
 			{Key: "r", Value: str("p-items")}, {Key: "v", Value: vr("z")}, {Key: "lim", Value: vr("lim")}, {Key: "n", Value: vr("n")},
+			{Key: "neg", Value: vr("neg")}, {Key: "keep", Value: vr("keep")}, {Key: "same", Value: vr("same")}, {Key: "more", Value: vr("more")},
 		}}},
 	}}
 }
@@ -154,6 +162,7 @@ func c15exec(bc []byte) (string, error) {
 	m := vm.NewVM()
 	m.SetLocal("n", vm.StringValue{Val: "5"})
 	m.SetLocal("lim", vm.StringValue{Val: "77"})
+	m.SetLocal("q", vm.IntValue{Val: 7})
 	val, err := m.Execute(bc)
 	if err != nil {
 		return "", err
